@@ -413,6 +413,24 @@ func (w *World) convertProto(start *mdisk, segdocs map[uint64][]DV) *pconv {
 				rootSegs = persistedIDs(v.Segs)
 				emit("PI (" + coqMergeEvent(m, v) + ")")
 				c.stats.Merges++
+				oldInMem := len(m.Old) > 0
+				for _, o := range m.Old {
+					if o.Persisted {
+						oldInMem = false
+					}
+				}
+				if oldInMem {
+					c.stats.MemMerges++
+					in := false
+					for _, sg := range v.Segs {
+						if sg.ID == m.MergeID {
+							in = true
+						}
+					}
+					if !in {
+						c.stats.MergesSkipped++
+					}
+				}
 				pendingMerge = nil
 				prevRoot = v
 				flushObs(v.Epoch)
@@ -699,6 +717,9 @@ func runProto(o Opts, mode string) error {
 		wo.SegVersion = uint32(1 + rng.Intn(2))
 		wo.Unsafe = rng.Intn(4) == 0 || (mode == "c11" && rng.Intn(3) == 0)
 		wo.Merges = []string{"small", "small", "default", "off"}[rng.Intn(4)]
+		if mode == "c02" && !wo.Unsafe && wo.Merges == "off" {
+			wo.MemMergeMin = 2 // no file merges, but the persister still merges in-memory segments (staged schedule below)
+		}
 		wo.KeepN = 1 + rng.Intn(3)
 		wo.OpDelayUs = []int{0, 100, 800}[rng.Intn(3)]
 		rounds := 1
@@ -764,12 +785,20 @@ func runProto(o Opts, mode string) error {
 			}
 			term := fmt.Sprintf("PC %d %s %s %s %s %s", wo.KeepN, cq.List(tbl), coqDisk(start), coqSegdocs(segdocsAtStart(conv, start)), cq.List(conv.events), cq.List(conv.probeTerms))
 			desc["events"], desc["probes"], desc["intros"] = len(conv.events), len(conv.probeTerms), conv.stats.Intros
-			cw.Add(term, mode, conv.stats.Intros >= 2 && len(conv.probeTerms) > 0, desc)
+			if len(term) > 1500000 {
+				// the proof assistant's parser overflows its stack on a single term of this size; the run's oracle
+				// predicates above were evaluated, only the monitor validation of this one trace is skipped
+				cw.Count("trace_too_large_for_monitor", 1)
+			} else {
+				cw.Add(term, mode, conv.stats.Intros >= 2 && len(conv.probeTerms) > 0, desc)
+			}
 			cw.Count("events", len(conv.events))
 			cw.Count("probes", len(conv.probeTerms))
 			cw.Count("intros", conv.stats.Intros)
 			cw.Count("merges", conv.stats.Merges)
 			cw.Count("persist_swaps", conv.stats.Swaps)
+			cw.Count("in_memory_merges", conv.stats.MemMerges)
+			cw.Count("in_memory_merges_obsoleted_before_introduction", conv.stats.MergesSkipped)
 			cw.Count("traces_validated", 1)
 			if wo.DirKind == "fsrec" {
 				os.RemoveAll(wo.Path)
@@ -865,6 +894,7 @@ func protoScenario(cw *cq.Writer, w *World, rng *rand.Rand, mode string, faults 
 	}
 	n := 4 + rng.Intn(14)
 	var batchErrs int
+	var cbKeys []int // batches issued with a persisted-callback
 	// c11: some runs rewrite every id in every batch (unsafe mode): segments lose all their documents while
 	// the persister is still writing and re-opening them
 	churn := mode == "c11" && w.O.Unsafe && rng.Intn(2) == 0
@@ -883,7 +913,11 @@ func protoScenario(cw *cq.Writer, w *World, rng *rand.Rand, mode string, faults 
 				b.Ops = append(b.Ops, DocOp{Kind: "upd", ID: id, V: v})
 			}
 		}
-		err := w.Do(b, w.O.Unsafe || rng.Intn(3) == 0)
+		withCb := w.O.Unsafe || rng.Intn(3) == 0
+		if withCb {
+			cbKeys = append(cbKeys, b.Key)
+		}
+		err := w.Do(b, withCb)
 		if err != nil {
 			batchErrs++
 			if faults == nil {
@@ -902,12 +936,90 @@ func protoScenario(cw *cq.Writer, w *World, rng *rand.Rand, mode string, faults 
 			faults.clearTransient()
 		}
 	}
+	if mode == "c02" && !w.O.Unsafe && w.O.Merges == "off" && (w.Dir != nil || w.RDir != nil) {
+		if err := protoSupersededMemMerge(w, faults, desc); err != nil {
+			return err
+		}
+	}
+	if mode == "c02" && !w.O.Unsafe && rng.Intn(2) == 0 {
+		// several callers at once: roots then hold more than one in-memory segment when the persister grabs
+		// them, so it merges them in memory while further batches supersede what it is merging; every call
+		// that returns nil must still be covered by a complete snapshot at that moment
+		desc["concurrent_callers"] = true
+		g := 3 + rng.Intn(3)
+		sets := make([][]BatchSpec, g)
+		for i := range sets {
+			for j := 0; j < 3+rng.Intn(4); j++ {
+				b := w.GenBatch()
+				hasMarker := false
+				for _, op := range b.Ops {
+					if op.ID >= 1000000 {
+						hasMarker = true
+					}
+				}
+				if !hasMarker {
+					b.Ops = append(b.Ops, DocOp{Kind: "del", ID: 1000000 + b.Key})
+				}
+				sets[i] = append(sets[i], b)
+			}
+		}
+		var wg sync.WaitGroup
+		var emu sync.Mutex
+		var firstErr error
+		for i := range sets {
+			wg.Add(1)
+			go func(bs []BatchSpec) {
+				defer wg.Done()
+				for _, b := range bs {
+					if err := w.Do(b, false); err != nil {
+						emu.Lock()
+						batchErrs++
+						if firstErr == nil {
+							firstErr = fmt.Errorf("batch %d: %w", b.Key, err)
+						}
+						emu.Unlock()
+					}
+				}
+			}(sets[i])
+		}
+		wg.Wait()
+		if firstErr != nil && faults == nil {
+			return firstErr
+		}
+	}
 	if faults != nil {
 		// the fault clears: the writer, without being reopened, must give an acknowledgement again
 		faults.clearAll()
 		b := w.GenBatch()
 		if err := w.Do(b, true); err != nil {
 			cw.OracleFail("no-recovery-after-fault", fmt.Sprintf("batch %d after the faults cleared still fails: %v", b.Key, err), desc)
+		} else if mode == "c14" {
+			// that acknowledgement covers everything applied before: the persisted-callback of this batch and of
+			// every earlier batch (also those whose own call returned the error) fires, without error
+			cw.OracleEval(1)
+			want := append(append([]int{}, cbKeys...), b.Key)
+			missing := want
+			for deadline := time.Now().Add(5 * time.Second); time.Now().Before(deadline); time.Sleep(2 * time.Millisecond) {
+				fired := map[int]bool{}
+				for _, e := range w.Rec.Snapshot() {
+					if e.Kind == "callback" && e.Err == "" {
+						fired[e.Batch] = true
+					}
+				}
+				missing = nil
+				for _, k := range want {
+					if !fired[k] {
+						missing = append(missing, k)
+					}
+				}
+				if len(missing) == 0 {
+					break
+				}
+			}
+			if len(missing) > 0 {
+				cw.OracleFail("acknowledgement-after-fault-incomplete", fmt.Sprintf("5 s after the faults cleared and batch %d was accepted, the persisted-callbacks of batches %v (applied before) have not fired", b.Key, missing), desc)
+			}
+			cw.Count("callbacks_expected_after_fault", len(want))
 		}
 		desc["batch_errors"] = batchErrs
 	}
@@ -1006,6 +1118,155 @@ func protoScenario(cw *cq.Writer, w *World, rng *rand.Rand, mode string, faults 
 	return nil
 }
 
+// protoSupersededMemMerge stages the schedule in which the persister's merge of the in-memory segments of its
+// snapshot is superseded before it is introduced: the persister is held at a segment write (directory gate)
+// while two disjoint safe batches enter the root, let go, held again at the write of the merged segment while
+// a third batch rewrites every document of the two, and let go.  The two batches' calls then return: a
+// complete snapshot containing them has to be on disk at that moment (monitor + crash probes decide).
+func protoSupersededMemMerge(w *World, faults *faultPlan, desc map[string]interface{}) error {
+	var mu sync.Mutex
+	armed := false
+	var blocked, release chan struct{}
+	arm := func() (chan struct{}, chan struct{}) {
+		mu.Lock()
+		defer mu.Unlock()
+		armed = true
+		blocked, release = make(chan struct{}), make(chan struct{})
+		return blocked, release
+	}
+	gate := func(op sim.Op) {
+		if op.Op != "persist" || op.Item != ".seg" {
+			return
+		}
+		mu.Lock()
+		if !armed {
+			mu.Unlock()
+			return
+		}
+		armed = false
+		b, r := blocked, release
+		mu.Unlock()
+		close(b)
+		select {
+		case <-r:
+		case <-time.After(3 * time.Second):
+		}
+	}
+	var prev func(op sim.Op)
+	if w.Dir != nil {
+		prev = w.Dir.Gate
+		w.Dir.Gate = func(op sim.Op) {
+			if prev != nil {
+				prev(op)
+			}
+			gate(op)
+		}
+		defer func() { w.Dir.Gate = prev }()
+	} else {
+		prev = w.RDir.Gate
+		w.RDir.Gate = func(op sim.Op) {
+			if prev != nil {
+				prev(op)
+			}
+			gate(op)
+		}
+		defer func() { w.RDir.Gate = prev }()
+	}
+	mk := func(ops ...DocOp) BatchSpec {
+		w.mu.Lock()
+		key := w.nextKey
+		w.nextKey++
+		for i := range ops {
+			if ops[i].Kind != "del" {
+				ops[i].V = w.nextV
+				w.nextV++
+			}
+		}
+		w.mu.Unlock()
+		return BatchSpec{Key: key, Ops: append(ops, DocOp{Kind: "del", ID: 1000000 + key})}
+	}
+	introduced := func(key int) bool {
+		for _, e := range w.Rec.Snapshot() {
+			if e.Kind == "intro-segment" && e.Batch == key {
+				return true
+			}
+		}
+		return false
+	}
+	waitIntro := func(keys ...int) bool {
+		for deadline := time.Now().Add(time.Second); time.Now().Before(deadline); time.Sleep(200 * time.Microsecond) {
+			all := true
+			for _, k := range keys {
+				if !introduced(k) {
+					all = false
+				}
+			}
+			if all {
+				time.Sleep(300 * time.Microsecond) // the root replacement follows the introduction event at once
+				return true
+			}
+		}
+		return false
+	}
+	var wg sync.WaitGroup
+	var emu sync.Mutex
+	var firstErr error
+	issue := func(b BatchSpec) {
+		wg.Add(1)
+		go func() {
+			defer wg.Done()
+			if err := w.Do(b, false); err != nil {
+				emu.Lock()
+				if firstErr == nil {
+					firstErr = fmt.Errorf("batch %d: %w", b.Key, err)
+				}
+				emu.Unlock()
+			}
+		}()
+	}
+	staged := false
+	b0 := mk(DocOp{Kind: "ins", ID: 100})
+	b1 := mk(DocOp{Kind: "upd", ID: 0})
+	b2 := mk(DocOp{Kind: "upd", ID: 1})
+	b3 := mk(DocOp{Kind: "upd", ID: 0}, DocOp{Kind: "upd", ID: 1})
+	blk1, rel1 := arm()
+	issue(b0)
+	select {
+	case <-blk1:
+		issue(b1)
+		issue(b2)
+		ok := waitIntro(b1.Key, b2.Key)
+		blk2, rel2 := arm()
+		close(rel1)
+		if ok {
+			select {
+			case <-blk2:
+				issue(b3)
+				staged = waitIntro(b3.Key)
+			case <-time.After(time.Second):
+			}
+		}
+		close(rel2)
+	case <-time.After(time.Second):
+		close(rel1)
+	}
+	mu.Lock()
+	armed = false
+	mu.Unlock()
+	done := make(chan struct{})
+	go func() { wg.Wait(); close(done) }()
+	select {
+	case <-done:
+	case <-time.After(10 * time.Second):
+		return fmt.Errorf("staged batches did not return within 10s")
+	}
+	desc["superseded_mem_merge_staged"] = staged
+	if firstErr != nil && faults == nil {
+		return firstErr
+	}
+	return nil
+}
+
 // ---- fault plans (C14) ----
 
 type faultPlan struct {
@@ -1048,6 +1309,14 @@ func (f *faultPlan) at(op sim.Op) *sim.Fault {
 		f.transient--
 	}
 	f.hits++
+	// the persister retries a failed round at once and without pause; keep a persistent fault from producing
+	// hundreds of thousands of identical rounds (the trace would only get longer, not different)
+	switch {
+	case f.hits > 200:
+		time.Sleep(5 * time.Millisecond)
+	case f.hits > 40:
+		time.Sleep(time.Millisecond)
+	}
 	return &sim.Fault{Err: fmt.Errorf("injected %s fault", f.class), When: f.when}
 }
 
@@ -1347,11 +1616,19 @@ func checkFaultSurfacing(cw *cq.Writer, w *World, c *pconv, desc map[string]inte
 		}
 		var pendingSafe []int
 		var grabbed []int
+		introBatch := -1
 		for _, e := range evs {
 			switch e.Kind {
 			case "intro-segment":
-				if e.Batch >= 0 {
-					pendingSafe = append(pendingSafe, e.Batch)
+				// logged when the introducer starts on the batch, outside the root lock: the batch joins the
+				// waiting set only when its root replacement (logged under the lock) happens
+				introBatch = e.Batch
+			case "root":
+				if e.V != nil && e.V.Creator == "introduceSegment" {
+					if introBatch >= 0 {
+						pendingSafe = append(pendingSafe, introBatch)
+					}
+					introBatch = -1
 				}
 			case "grab":
 				grabbed, pendingSafe = pendingSafe, nil
